@@ -75,3 +75,27 @@ package merkleblock
 //@   loop 1 invariant i >= pos << height && i <= m.numTx && i <= (pos + 1) << height
 //@   loop 1 invariant isParent == mb.any(m.matchedBits, int(pos << height), int(i))
 //@   loop 1 decreases int(m.numTx) - int(i)
+
+//@ func merkleblock.(*MerkleBlock).calcBlock
+//@   requires block != nil && block.msgBlock != nil
+//@   requires m.numTx >= 1 && m.numTx <= 1073741824 && len(m.allHashes) == int(m.numTx) && len(m.matchedBits) == int(m.numTx)
+//@   requires forall k :: 0 <= k && k < len(m.allHashes) ==> m.allHashes[k] != nil
+//@   requires disjoint(m.bits, m.matchedBits) && disjoint(m.finalHashes, m.allHashes)
+//@   ensures result != nil && fresh(result) && result.Transactions == m.numTx
+//@   ensures len(result.Flags) == (len(m.bits) + 7) / 8
+//@   ensures len(m.bits) < 4294967296 ==> forall j :: 0 <= j && j < len(result.Flags) ==> result.Flags[j] == mb.pack(m.bits, j, u32(len(m.bits)))
+//@   ensures $calls_traverseAndBuild == 1
+//@   modifies m.bits, m.finalHashes, *m.bits, *m.finalHashes
+//@   loop 1 invariant height <= 30 && m.numTx == old(m.numTx)
+//@   loop 1 invariant height >= 1 ==> ((m.numTx + (u32(1) << (height - 1)) - 1) >> (height - 1)) > 1
+//@   loop 1 decreases 31 - int(height)
+//@   loop 2 invariant msgMerkleBlock.Transactions == m.numTx && len(msgMerkleBlock.Flags) == (len(m.bits) + 7) / 8 && fresh(msgMerkleBlock.Flags) && !sameobj(msgMerkleBlock.Flags, m.bits)
+//@   loop 2 invariant $calls_AddTxHash == $i && $calls_traverseAndBuild == 1 && !sameobj(msgMerkleBlock.Hashes, m.finalHashes)
+//@   loop 2 invariant forall j :: 0 <= j && j < len(msgMerkleBlock.Flags) ==> msgMerkleBlock.Flags[j] == 0
+//@   loop 3 invariant msgMerkleBlock.Transactions == m.numTx && len(msgMerkleBlock.Flags) == (len(m.bits) + 7) / 8 && fresh(msgMerkleBlock.Flags) && !sameobj(msgMerkleBlock.Flags, m.bits) && $calls_traverseAndBuild == 1
+//@   loop 3 modifies msgMerkleBlock.Flags[*]
+//@   loop 3 invariant int(i) <= len(m.bits)
+//@   loop 3 invariant forall j :: 0 <= j && j < len(msgMerkleBlock.Flags) ==> msgMerkleBlock.Flags[j] == mb.pack(m.bits, j, i)
+//@   loop 3 decreases len(m.bits) - int(i)
+//@   assert after traverseAndBuild#1: $arg1 == height && $arg2 == 0
+//@   assert after AddTxHash#1: $arg1 == m.finalHashes[$i2]
